@@ -336,7 +336,7 @@ pub fn affinity_only(ks: &[usize], ctx: &mut Ctx) -> Value {
 
 pub fn run_sched(prop: &str, tier: &str, ctx: &mut Ctx) -> Value {
     let exe = "/verif/engine/target-sched/release/gv";
-    let out = match std::process::Command::new(exe).args(["sched", prop, tier]).output() {
+    let out = match std::process::Command::new("timeout").args(["-k", "5", if tier == "thorough" { "7200" } else { "900" }, exe, "sched", prop, tier]).output() {
         Ok(o) => o,
         Err(e) => {
             eprintln!("gv: cannot run the schedule engine {exe}: {e} (machinery error)");
